@@ -103,13 +103,23 @@ KindsFor(entry, slot) ==
     [] entry \in StaticEntries ->           \* a falsy static time / measurement means "argument absent"
          IF slot \in {"time", "measurement"} THEN WrongFor(slot) \cap TruthyKinds ELSE WrongFor(slot)
     [] entry \in CallableEntries -> WrongFor(slot)
+(* `with`: a VALID companion argument supplied in the same update call (a   *)
+(* validation that only runs when the other arguments are absent is a hole)*)
+Companions == {"none", "time", "measurement", "tags", "fields"}
+ArgOf(slot) == CASE slot = "time" -> "time" [] slot = "measurement" -> "measurement"
+                 [] slot \in {"tagkey", "tagvalue"} -> "tags" [] OTHER -> "fields"
 BadOps ==
-  {[op |-> "bad", entry |-> e, slot |-> sl, kind |-> k,
+  {[op |-> "bad", entry |-> e, slot |-> sl, kind |-> k, with |-> w,
     q |-> Me("noop", 0), m |-> IF e \in {"handle_update_static", "handle_update_callable"} THEN 1 ELSE N,
     needsel |-> IF e \in CallableEntries THEN 1 ELSE 0] :
-     e \in {"ctor", "setter", "insert_meas"} \cup StaticEntries \cup CallableEntries, sl \in Slots, k \in BadKinds}
+     e \in {"ctor", "setter", "insert_meas"} \cup StaticEntries \cup CallableEntries, sl \in Slots, k \in BadKinds, w \in Companions}
 
-BadCells == {b \in BadOps : b.kind \in KindsFor(b.entry, b.slot)}
+BadCells == {b \in BadOps :
+               /\ b.kind \in KindsFor(b.entry, b.slot)
+               /\ \/ b.with = "none"
+                  \/ /\ b.entry \in {"update_static", "update_all_static", "update_callable"}
+                     /\ b.with # ArgOf(b.slot)
+                     /\ b.kind \in {"int", "str", "dict", "bool"}}
 BadDone == \E i \in 1..Len(hist) : hist[i].op = "bad"
 
 Alphabet ==
